@@ -309,3 +309,14 @@ def parallel_map(fn, items, jobs=8):
     from concurrent.futures import ThreadPoolExecutor
     with ThreadPoolExecutor(max_workers=jobs) as ex:
         return list(ex.map(fn, items))
+
+
+def panic_in_code_under_test(stderr):
+    """True when a panic message points into the repository under test (a result), False when
+    it points into the harness itself (a tool error)."""
+    import re as _re
+    m = _re.search(r"panicked at ([^\s:]+):", stderr or "")
+    if not m:
+        return False
+    loc = m.group(1)
+    return "repo/src" in loc or loc.startswith("/repo") or "feoxdb" in loc
